@@ -117,3 +117,53 @@ Fixpoint expand_ellipsis (pad : nat) (slice : list slice_elem) : list slice_elem
   | SEllipsis :: r => repeat (SSub None None None) pad ++ expand_ellipsis pad r
   | x :: r => x :: expand_ellipsis pad r
   end.
+
+(* ------------------------------------------------------------------ gemm *)
+(* the last two coordinates (or dimensions) [a; b] of an operand, swapped when the operand is
+   given transposed *)
+Definition tr_pair (t : bool) (a b : Z) : list Z := if t then [b; a] else [a; b].
+
+(* ------------------------------------------------------------------ stack / concatenate *)
+(* Stack: the common (broadcast) shape of the stacked items; scalars are stacked as one-element
+   arrays, the trailing dimension 1 not being recorded in the result shape *)
+Definition stack_inner (inner : list Z) : list Z := match inner with [] => [1] | _ => inner end.
+
+(* numpy.concatenate along an axis whose operand sizes are [ns]: coordinate x of the result lies
+   in operand q at local coordinate y, where (q, y) = concat_locate ns x *)
+Fixpoint concat_locate (ns : list Z) (x : Z) : nat * Z :=
+  match ns with
+  | [] => (O, x)
+  | n :: r => if x <? n then (O, x)
+              else (S (fst (concat_locate r (x - n))), snd (concat_locate r (x - n)))
+  end.
+
+(* ------------------------------------------------------------------ reshape / vectors *)
+(* number of arrays and scalars of a type in flattened form *)
+Fixpoint leaf_count (t : ty) : nat :=
+  match t with
+  | TScalar _ | TArray _ _ => 1%nat
+  | TVector n t1 => (Z.to_nat n * leaf_count t1)%nat
+  | TTuple ts => list_sum (map leaf_count ts)
+  | TNamed fs => list_sum (map (fun p => leaf_count (snd p)) fs)
+  end.
+(* a value has the tree structure of a type (element counts and ranges are has_type's business) *)
+Inductive shaped : value -> ty -> Prop :=
+| shaped_scalar es s : shaped (VArr es) (TScalar s)
+| shaped_array es sh s : shaped (VArr es) (TArray sh s)
+| shaped_vector vs n t : length vs = Z.to_nat n -> Forall (fun v => shaped v t) vs -> shaped (VTup vs) (TVector n t)
+| shaped_tuple vs ts : Forall2 shaped vs ts -> shaped (VTup vs) (TTuple ts)
+| shaped_named vs fs : Forall2 shaped vs (map snd fs) -> shaped (VTup vs) (TNamed fs).
+Definition is_leaf_value (v : value) : Prop := match v with VArr _ => True | VTup _ => False end.
+
+(* ------------------------------------------------------------------ segment cumulative sum *)
+(* graphs.rs:2428: output[0] = v, output[i] = A[i-1] + B[i-1] * output[i-1] *)
+Fixpoint seg_cumsum_at (a b : Z -> Z) (v : Z) (i : nat) : Z :=
+  match i with
+  | O => v
+  | S k => a (Z.of_nat k) + b (Z.of_nat k) * seg_cumsum_at a b v k
+  end.
+
+(* ------------------------------------------------------------------ A2B / B2A on arrays *)
+(* bit j of x, and the integer with little-endian bits b 0 .. b (w-1) *)
+Definition bit_of (x j : Z) : Z := (x / 2 ^ j) mod 2.
+Definition bits_value (b : Z -> Z) (w : Z) : Z := zsum (fun j => b j * 2 ^ j) w.
